@@ -46,6 +46,7 @@ def run(ctx):
         'D3 basis change is an inverse pair (*MW, /MW) followed by rescale and basis record; __call__/force_reaction always write back and restore config',
         'D4 both parsers negate left-hand-side coefficients and keep right-hand-side ones',
         'D5 with the feasibility flag on, every normal return of __call__ passed "no negatives" or "negatives zeroed"; the raise is reachable',
+        'D7 Reaction.copy / ReactionSet.copy, whose result copy(basis) rescales in place, copy every mutable stoichiometry container element-wise',
         'D6 every re-binding of view-wrapped molar storage (reset_chemicals for the configuration switch, phase expansion ...) drops or replaces the cached mass view that weight-basis reactions write through',
     ]
     ctx.not_decided = ['mass/atom conservation for balanced stoichiometries on concrete numbers', 'cross-package index remapping at run time']
@@ -66,6 +67,11 @@ def run(ctx):
     d6 = ctx.rule('D6', 'mass views follow the molar storage (weight basis == molar basis on a stream)', floor=6)
     from .C11 import view_coherence
     view_coherence(ctx, d6)
+    # copy(basis) converts the COPY in place (inverse pair of D3): it must not share a stoichiometry row with the original,
+    # or the original keeps its basis label while its coefficients change
+    d7 = ctx.rule('D7', 'copies that are re-based in place share no stoichiometry storage with the original', floor=2)
+    from .C17 import copy_sharing
+    copy_sharing(ctx, d7)
 
 
 # ----------------------------------------------------------------------------
